@@ -205,13 +205,13 @@ impl QueryNode {
             // `metrics` table binding for this request.
             let results = self
                 .engine
-                .with_metrics_table(&chunk_paths, || async {
+                .with_metrics_table(&chunk_paths, sql, |df| async {
                     if let Some(ref controller) = self.adaptive_index_controller {
                         self.engine
-                            .execute_with_indexes(sql, tenant_id, controller.clone())
+                            .execute_planned_with_indexes(df, tenant_id, controller.clone())
                             .await
                     } else {
-                        self.engine.execute(sql).await
+                        self.engine.execute_planned(df).await
                     }
                 })
                 .await?;
